@@ -519,8 +519,43 @@ fn free_running(out: &mut Out, thorough: bool) {
     }
 }
 
+/// Free-running threads on one shared Decryptor: ciphertexts of very different sizes (the cache of secret-key powers is extended by several
+/// powers at once while another thread extends it by fewer), followed by sizes in between and above; every decryption must be byte for byte
+/// the one a fresh single-threaded decryptor returns, and no thread may panic.
+fn free_running_decryptor(out: &mut Out, thorough: bool) {
+    let n = 32usize;
+    let built = std::panic::catch_unwind(|| {
+        let p = EncryptionParameters::new(SchemeType::BFV).set_poly_modulus_degree(n).set_coeff_modulus(&CoeffModulus::create(n, vec![50, 50, 50])).set_plain_modulus(&PlainModulus::batching(n, 9));
+        let ctx = HeContext::new(p, false, SecurityLevel::None);
+        let kg = KeyGenerator::new(ctx.clone());
+        let enc = Encryptor::new(ctx.clone()).set_secret_key(kg.secret_key().clone());
+        let ev = Evaluator::new(ctx.clone());
+        let mut pl = Plaintext::new(); pl.resize(n); for (i, x) in pl.data_mut().iter_mut().enumerate() { *x = (i as u64 * 7 + 3) % 257; }
+        let mut base = Ciphertext::new(); enc.encrypt_symmetric(&pl, &mut base); let base = if base.contains_seed() { base.expand_seed(&ctx) } else { base };
+        let mut cts = vec![base.clone()];                       // sizes 2, 3, ..., 14
+        for _ in 0..12 { let last = cts.last().unwrap().clone(); cts.push(ev.multiply_new(&last, &base)); }
+        (ctx, kg, cts) });
+    let (ctx, kg, cts) = match built { Ok(x) => x, Err(_) => { out.raw("!FAIL free_running decryptor setup :: building ciphertexts of sizes 2..14 panicked # free-running"); return; } };
+    let reference: Vec<Vec<u64>> = cts.iter().map(|c| Decryptor::new(ctx.clone(), kg.secret_key().clone()).decrypt_new(c).data().clone()).collect();
+    let rounds = if thorough { 200 } else { 40 };
+    let (mut bad, mut panics) = (0usize, 0usize);
+    for round in 0..rounds {
+        let dec = Decryptor::new(ctx.clone(), kg.secret_key().clone());      // fresh cache every round
+        let (big, small) = (10 + round % 3, 2 + round % 4);                   // indices into cts: sizes 12..14 against 4..7
+        let r = std::thread::scope(|s| {
+            let hs: Vec<_> = [big, small, small + 1].into_iter().map(|i| { let (dec, cts, reference) = (&dec, &cts, &reference);
+                s.spawn(move || dec.decrypt_new(&cts[i]).data() == &reference[i]) }).collect();
+            hs.into_iter().map(|h| h.join()).collect::<Vec<_>>() });
+        for x in r { match x { Ok(true) => {}, Ok(false) => bad += 1, Err(_) => panics += 1 } }
+        // afterwards, sequentially: every size (in particular the ones between and above the two concurrent requests)
+        for i in 0..cts.len() { match std::panic::catch_unwind(std::panic::AssertUnwindSafe(|| dec.decrypt_new(&cts[i]).data() == &reference[i])) { Ok(true) => {}, Ok(false) => bad += 1, Err(_) => panics += 1 } }
+    }
+    if bad == 0 && panics == 0 { out.raw(&format!("!OK free_running decryptor mixed-sizes rounds={} # free-running", rounds)); }
+    else { out.raw(&format!("!FAIL free_running decryptor mixed-sizes rounds={} :: {} decryptions differ from the sequential result, {} panicked # free-running", rounds, bad, panics)); }
+}
+
 fn run_inner(out: &mut Out, thorough: bool, seed: u64, extra: &[String]) {
-    if extra.first().map(|s| s == "freerun").unwrap_or(false) { free_running(out, thorough); return; }
+    if extra.first().map(|s| s == "freerun").unwrap_or(false) { free_running(out, thorough); free_running_decryptor(out, thorough); return; }
     let mut r = Rng::new(seed);
     let mut b = Budget { watchdog: Duration::from_secs(if thorough { 10 } else { 5 }), timeouts: 0 };
     let part = |p: &str| extra.is_empty() || extra[0] == "--case" || extra.iter().any(|e| e == p);
